@@ -174,7 +174,8 @@ func (trctlEngine) Gen(r *rand.Rand, idx int, tier string) any {
 		in.Phase = pick(r, "Terminating", "Progressing", "Healthy", "Finalizing")
 	}
 	in.Strategy = genTMStrategy(r)
-	if in.Strategy.Weight == nil && in.Strategy.Match == "" {
+	if in.Strategy.Weight == nil && in.Strategy.Match == "" && !chance(r, 35) {
+		// (an empty strategy -- `strategy: {}` passes the CRD -- is kept in a third of the cases it is drawn)
 		w := 20
 		in.Strategy.Weight = &w
 	}
